@@ -15,7 +15,8 @@ Record arr2 := mkArr { nrow : Z; ncol : Z; adat : list Q }.
 Definition in_range (A : arr2) (r c : Z) : bool :=
   ((0 <=? r) && (r <? nrow A) && (0 <=? c) && (c <? ncol A))%Z.
 (** [A[r, c]]; [None] = IndexError.  Python's wrap-around of negative indices is NOT reproduced:
-    a negative index is "outside" here (see [BLeft] below for where that matters). *)
+    a negative index is "outside" here (sample2D and, since the cell index is clipped, bilin_inv never
+    produce one on arrays with at least two rows and columns). *)
 Definition aget (A : arr2) (r c : Z) : option Q :=
   if in_range A r c then znth_opt (adat A) (r * ncol A + c)%Z else None.
 Definition wf_arr (A : arr2) : bool :=
@@ -107,9 +108,16 @@ Definition bil_est (k : quad) (p q : Q) : Q :=
 Definition bil_dx (k : quad) (q : Q) : Q := (1 - q) * (n01 k - n00 k) + q * (n11 k - n10 k).
 Definition bil_dy (k : quad) (p : Q) : Q := (1 - p) * (n10 k - n00 k) + p * (n11 k - n01 k).
 
-(** bilinear estimate of A at (x, y) as the iteration computes it ([None]: an index left the array) *)
+(** [np.clip(v, lo, hi)] = minimum(maximum(v, lo), hi) *)
+Definition zclip (lo hi v : Z) : Z := Z.min (Z.max v lo) hi.
+(** [i = np.clip(x.astype("i"), 0, imax - 2)]: the cell is kept inside the array, an iterate beyond
+    the edge extrapolates the edge cell (p = x - i is then outside [0, 1]) *)
+Definition cell_index (n : Z) (x : Q) : Z := zclip 0 (n - 2) (qtrunc x).
+
+(** bilinear estimate of A at (x, y) as the iteration computes it.  [None] only for an array with fewer
+    than two rows or columns (the clipped index is then -1; Python would wrap around) or a malformed one *)
 Definition bil_at (A : arr2) (x y : Q) : option Q :=
-  let i := qtrunc x in let j := qtrunc y in
+  let i := cell_index (nrow A) x in let j := cell_index (ncol A) y in
   match corners A i j with
   | Some k => Some (bil_est k (x - inject_Z i) (y - inject_Z j))
   | None => None
@@ -120,14 +128,14 @@ Definition resid2 (Fs f Gs g : Q) : Q := (Fs - f) * (Fs - f) + (Gs - g) * (Gs - 
 Inductive bstep :=
 | StStop                 (* H < tol: break *)
 | StNext (x y : Q)       (* Newton update *)
-| StLeft                 (* i, i+1, j or j+1 is not an index of the array *)
+| StLeft                 (* a node is not in the array: impossible for arrays with >= 2 rows and columns *)
 | StSingular.            (* det = 0: the code divides by zero (inf/nan) *)
 
 (** one pass of the loop body at (x, y).  [Qred] is the identity up to [==]; it only keeps the
     representation small when the model is evaluated. *)
 Definition bilin_step (f g : Q) (F G : arr2) (tol : Q) (x y : Q) : bstep :=
-  let i := qtrunc x in                      (* i = x.astype("i") *)
-  let j := qtrunc y in
+  let i := cell_index (nrow F) x in         (* imax, jmax = F.shape are used for F and for G *)
+  let j := cell_index (ncol F) y in
   let p := x - inject_Z i in
   let q := y - inject_Z j in
   match corners F i j, corners G i j with
@@ -146,8 +154,7 @@ Definition bilin_step (f g : Q) (F G : arr2) (tol : Q) (x y : Q) : bstep :=
 
 Inductive bres :=
 | BDone (x y : Q) (by_test : bool)  (* returned x, y; by_test = the loop ended by [break] *)
-| BLeft (x y : Q)      (* an index left the array at (x, y): IndexError on the high side; on the low side
-                          (index -1) Python wraps around silently and continues with wrong nodes *)
+| BLeft (x y : Q)      (* a node was not in the array at (x, y): only arrays with < 2 rows or columns *)
 | BSingular (x y : Q)
 | BShape.              (* ValueError("Shape mismatch in 2D arrays") *)
 
